@@ -177,7 +177,8 @@ theorem fireOne_sim (sc : Scripts) {w : World} (hw : WheelInv w) (hs : Sim true 
   have hdue : cop.c.due = w.cot := (ex.zero_slot (Int.le_refl _)).2.2
   have hmem := hs.wheelPend _ hxw
   have h1 := StepOK.setSlot_sublist hw (slotOf w.cot) rest (by rw [hcum]; exact List.sublist_cons_self _ _)
-  unfold fireOne
+  rw [fireOne_eq_spec]
+  unfold fireOneSpec
   by_cases hdead : isDead (setSlot w (slotOf w.cot) rest) cop.c.owner = true
   · rw [if_pos hdead]
     -- dropped (silently, or with the "owner destructed" error of a function pointer): the oracle keeps it as
